@@ -266,8 +266,11 @@ def far(tier):
     return out
 
 
+EXTRA = []    # inputs added by ./check: sizes at which the translated current source disagrees with the model
+
+
 def streams(tier, seed, groups=None, with_invalid=False):
-    out = load_corpus()
+    out = load_corpus() + list(EXTRA)
     for g, f in GROUPS.items():
         if g == "invalid" and not with_invalid:
             continue
